@@ -19,7 +19,8 @@ def do_replay(path):
     prop = body["property"]
     mod = load_module(prop)
     case = common.unjson(body["case"])
-    v = mod.replay(body["check"], case)
+    with common.hang_guard():
+        v = mod.replay(body["check"], case)
     if v is None:
         print("replay %s: property=%s check=%s: no violation on this tree"
               % (path, prop, body["check"]))
